@@ -692,7 +692,7 @@ def span_files(span, acc):
         span_files(exp.get("def_site_span"), acc)
 
 
-def attribute(diag, casedir):
+def attribute(diag, casedir, known):
     """the case file (relative path under casedir) an error belongs to, or None"""
     acc = []
     for sp in diag.get("spans", []):
@@ -702,7 +702,7 @@ def attribute(diag, casedir):
             span_files(sp, acc)
     # prefer primary spans' innermost case file
     for fn, line in acc:
-        if fn and os.path.abspath(fn).startswith(casedir):
+        if fn and os.path.abspath(fn) in known:
             return os.path.relpath(os.path.abspath(fn), casedir), line
     return None, None
 
@@ -721,6 +721,7 @@ def cargo_fixpoint(root, shard_mods, casedir, target_dir, mode="build", max_roun
                            stdout=subprocess.PIPE, stderr=subprocess.PIPE, text=True)
         bad = {}
         unattributed = []
+        known_abs = {os.path.abspath(m[1]) for ms in live.values() for m in ms}
         for line in p.stdout.splitlines():
             if not line.startswith("{"):
                 continue
@@ -736,7 +737,7 @@ def cargo_fixpoint(root, shard_mods, casedir, target_dir, mode="build", max_roun
             if d.get("message", "").startswith("aborting due to") or \
                     d.get("message", "").startswith("could not compile"):
                 continue
-            rel, line_no = attribute(d, casedir)
+            rel, line_no = attribute(d, casedir, known_abs)
             rec = {"code": (d.get("code") or {}).get("code"), "message": d.get("message"),
                    "line": line_no, "round": rnd,
                    "rendered": (d.get("rendered") or "")[:1200]}
@@ -744,11 +745,18 @@ def cargo_fixpoint(root, shard_mods, casedir, target_dir, mode="build", max_roun
                 unattributed.append(rec)
             else:
                 bad.setdefault(rel, []).append(rec)
+        core.log("[rustc] %s round %d: %d files with errors, %d unattributed, rc=%d" % (
+            mode, rnd, len(bad), len(unattributed), p.returncode))
         if p.returncode == 0 and not bad:
             return rustc, rnd + 1, live
         if not bad:
             raise core.Inconclusive("cargo %s failed without an attributable error:\n%s\n%s" % (
                 mode, json.dumps(unattributed[:3])[:2000], p.stderr[-3000:]))
+        known = {os.path.relpath(m[1], casedir) for ms in live.values() for m in ms}
+        stuck = [rel for rel in bad if rel not in known]
+        if stuck and len(stuck) == len(bad):
+            raise core.Inconclusive("errors attributed to files that are not live modules: %r %r"
+                                    % (stuck[:3], [bad[x][0]["message"] for x in stuck[:3]]))
         # drop failing files (a failing module takes its probes with it)
         for rel, recs in bad.items():
             rustc[rel] = {"accepted": False, "diags": recs}
@@ -927,6 +935,15 @@ def _build_campaign(family, tier, d):
     return camp
 
 
+def setup_typecheck():
+    """pre-build the metadata of the real crates (wgpu 24.0.5 etc.) for C01"""
+    root = os.path.join(core.WORK, "typecheck-warm")
+    write_workspace(root, 1, real_wgpu=True)
+    core.write_if_changed(os.path.join(root, "shard_0", "src", "main.rs"), "fn main() {}\n")
+    core.sh(["cargo", "check", "--offline", "-j", str(core.NCPU)], cwd=root,
+            extra_env={"CARGO_TARGET_DIR": os.path.join(core.TARGET, "typecheck")})
+
+
 def setup():
     """pre-build the dependency set of the probe workspace"""
     root = os.path.join(core.WORK, "probe-warm")
@@ -935,6 +952,7 @@ def setup():
                           "fn main() { let _ = wgpu::Device::verif_new(); }\n")
     core.sh(["cargo", "build", "--offline", "-j", str(core.NCPU)], cwd=root,
             extra_env={"CARGO_TARGET_DIR": os.path.join(core.TARGET, "probes")})
+    setup_typecheck()
 
 
 # ---------------------------------------------------------------------------------------------
